@@ -1,6 +1,12 @@
-"""Thorough-only extras for C01 (instruction-count scaling under cachegrind, Miri shard).
-Filled in later; prepare() is a no-op until then."""
+"""Thorough-only extras for C01: instruction-count scaling under cachegrind and a Miri shard."""
+import sanit
 
 
-def prepare(root, env):
-    return None
+def run(drv, seed):
+    extra, viol, inc = {}, [], []
+    for fn in (lambda: sanit.cachegrind_scaling(drv), lambda: sanit.miri(drv, "C19", seed, nproc=8, per=30, many_seeds=0)):
+        e, v, i = fn()
+        extra.update(e)
+        viol += [(b, dict(x, sig=x["sig"].replace("C19.", "C01."), rule=x["rule"].replace("C19.", "C01."))) for b, x in v]
+        inc += i
+    return extra, viol, inc
